@@ -76,6 +76,16 @@ pub fn filters_desc(f: &[(u8, u32)]) -> String {
     format!("[{}]", parts.join(","))
 }
 
+/// Trigger of the known BCJWriter limitation (a BCJ filter that is fed by more than one write call
+/// filters every call on its own): the caller writes more than once, or - with a single write by the
+/// caller - a BCJ filter sits behind another BCJ filter, because `BCJWriter::write` forwards its
+/// output in two pieces (the converted part, then the unconverted tail).
+pub fn bcj_multi_write_exposed(f: &[(u8, u32)], caller_writes: usize) -> bool {
+    let has_bcj = f.iter().any(|x| x.0 != 3);
+    let bcj_behind_bcj = f.windows(2).any(|w| w[0].0 != 3 && w[1].0 != 3);
+    has_bcj && (caller_writes > 1 || bcj_behind_bcj)
+}
+
 pub fn chain_shape(f: &[(u8, u32)]) -> String {
     if f.is_empty() {
         return "nofilter".into();
@@ -358,8 +368,8 @@ fn run_case_inner(ctx: &Ctx, idx: u64) -> Vec<CaseOut> {
         }
         n + (left > 0) as usize
     };
-    let has_bcj = matches!(&case.spec.c, Container::Xz { filters, .. } if filters.iter().any(|f| f.0 != 3));
-    let fmt = if has_bcj && nonempty_writes > 1 {
+    let exposed = matches!(&case.spec.c, Container::Xz { filters, .. } if bcj_multi_write_exposed(filters, nonempty_writes));
+    let fmt = if exposed {
         "xz[bcj-filter+multi-write]"
     } else {
         fmt
